@@ -593,6 +593,11 @@ static Boolean LayoutWord(tStrComp const* pExpr, struct sLayoutCtx* pCtx) {
             goto ToInt;
         }
 
+        if (!pCtx->Put16I) {
+            WrStrErrorPos(ErrNum_FloatButString, pExpr);
+            LEAVE;
+        }
+
         TranslateString(t.Contents.str.p_str, t.Contents.str.len);
 
         for (z = 0; z < t.Contents.str.len; z++) {
@@ -717,6 +722,11 @@ static Boolean LayoutDoubleWord(tStrComp const* pExpr, struct sLayoutCtx* pCtx) 
 
         if (MultiCharToInt(&erg, 4)) {
             goto ToInt;
+        }
+
+        if (!pCtx->Put32I) {
+            WrStrErrorPos(ErrNum_FloatButString, pExpr);
+            LEAVE;
         }
 
         TranslateString(erg.Contents.str.p_str, erg.Contents.str.len);
@@ -862,6 +872,11 @@ static Boolean LayoutQuadWord(tStrComp const* pExpr, struct sLayoutCtx* pCtx) {
 
         if (MultiCharToInt(&erg, 8)) {
             goto ToInt;
+        }
+
+        if (!pCtx->Put64I) {
+            WrStrErrorPos(ErrNum_FloatButString, pExpr);
+            LEAVE;
         }
 
         TranslateString(erg.Contents.str.p_str, erg.Contents.str.len);
